@@ -301,7 +301,7 @@ Lemma FO_process_sys s u e s' o p : process_sys roles s u e = (s', o, p) -> FO u
 Proof.
   unfold process_sys. destruct (get s u) as [a|] eqn:Ea; [|intros H; inversion H; subst; left; apply NT_refl].
   match goal with |- context [if ?d then _ else _] => destruct d end; [intros H; inversion H; subst; left; apply NT_refl|].
-  destruct (e_msg e) as [| |g|who| |r| | | |].
+  destruct (e_msg e) as [| |g|who| |r| | | | |].
   - (* SLaunch *) intros H. left. revert H. apply (bind_rel (NT u)); [apply NT_trans| |].
     + intros s1 o1 p1 E. apply NT_keep. eapply keep_handle; exact E.
     + intros s1 s2 o2 p2 H; inversion H; subst. apply NT_keep. apply keep_upd_actor; kp.
@@ -365,6 +365,8 @@ Proof.
   - intros H; inversion H; subst. left. apply NT_keep. apply keep_upd_actor; kp.
   - intros H; inversion H; subst; left; apply NT_refl.
   - intros H; inversion H; subst; left; apply NT_refl.
+  - (* SResumeReq *) destruct (a_st a); intros H; inversion H; subst; left; try apply NT_refl.
+    apply NT_keep, keep_deliver_sys.
 Qed.
 
 Lemma FO_run_inner s0 u m s' o : run_inner roles s0 u m = (s', o) -> FO u s0 s'.
